@@ -275,6 +275,17 @@ func (c *Client) Close() error {
 	return c.conn.Close()
 }
 
+// ErrTerminated is returned by an API call which was waiting for the gateway's
+// reply when the client terminated without an error.
+var ErrTerminated = errors.New("client terminated")
+
+func (c *Client) terminated() error {
+	if err := c.group.Wait(); err != nil {
+		return err
+	}
+	return ErrTerminated
+}
+
 // errNotActive is the result of a ping which was in progress when the client
 // left the active state.
 var errNotActive = errors.New("client is not active anymore")
@@ -350,7 +361,7 @@ func (c *Client) Connect() error {
 				return err
 			}
 		case <-c.groupCtx.Done():
-			return c.group.Wait()
+			return c.terminated()
 		}
 	}
 
@@ -372,7 +383,7 @@ func (c *Client) Register(topic string) error {
 	case <-transaction.Done():
 		return transaction.Err()
 	case <-c.groupCtx.Done():
-		return c.group.Wait()
+		return c.terminated()
 	}
 }
 
@@ -390,7 +401,7 @@ func (c *Client) subscribe(topicName string, topicIDType uint8, topicID uint16, 
 	case <-transaction.Done():
 		return transaction.Err()
 	case <-c.groupCtx.Done():
-		return c.group.Wait()
+		return c.terminated()
 	}
 }
 
@@ -425,7 +436,7 @@ func (c *Client) unsubscribe(topicName string, topicIDType uint8, topicID uint16
 	case <-transaction.Done():
 		return transaction.Err()
 	case <-c.groupCtx.Done():
-		return c.group.Wait()
+		return c.terminated()
 	}
 }
 
@@ -480,7 +491,7 @@ func (c *Client) publish(topicIDType uint8, topicID uint16, qos uint8, retain bo
 	case <-transaction.Done():
 		return transaction.Err()
 	case <-c.groupCtx.Done():
-		return c.group.Wait()
+		return c.terminated()
 	}
 }
 
@@ -555,7 +566,7 @@ func (c *Client) ping(waitForGroup bool) error {
 		if !waitForGroup {
 			return nil
 		}
-		return c.group.Wait()
+		return c.terminated()
 	}
 }
 
@@ -570,7 +581,7 @@ func (c *Client) Sleep(duration time.Duration) error {
 	case <-transaction.Done():
 		return transaction.Err()
 	case <-c.groupCtx.Done():
-		return c.group.Wait()
+		return c.terminated()
 	}
 }
 
